@@ -43,7 +43,10 @@ fn join(stmts: &[Vec<String>]) -> String {
     s
 }
 
-pub fn minimize_sources(start: &Sources, mut still_fails: impl FnMut(&Sources) -> bool, budget: usize) -> Sources {
+pub fn minimize_sources(start: &Sources, mut still_fails_inner: impl FnMut(&Sources) -> bool, budget: usize) -> Sources {
+    // Wall-clock bound on the whole minimisation: later candidates count as passing.
+    let deadline = std::time::Instant::now() + std::time::Duration::from_secs(25);
+    let mut still_fails = move |s: &Sources| std::time::Instant::now() <= deadline && still_fails_inner(s);
     let mut best = start.clone();
     let mut calls = 0usize;
     let names: Vec<String> = best.files.keys().cloned().collect();
